@@ -10,7 +10,6 @@
    No proofs in this file. *)
 From Coq Require Import List ZArith Bool.
 From Coq Require String Ascii.
-From Coq Require Import Uint63.
 Import ListNotations.
 Require Import Pyrefact.SchedModel.
 Open Scope Z_scope.
@@ -27,21 +26,7 @@ Fixpoint text_of_string (s : String.string) : text :=
 Definition NL : Z := 10.
 Definition SP : Z := 32.
 
-(* bulk case files pack 8 characters (7 bits each, never 0) into one primitive integer literal:
-   reading 9 constructors per character dominated the cost of a correspondence run *)
-Definition bitw (c k : Uint63.int) (w : Z) : Z :=
-  if Uint63.eqb (Uint63.land c k) 0%uint63 then 0 else w.
-Definition z_of_char (c : Uint63.int) : Z :=
-  bitw c 1%uint63 1 + bitw c 2%uint63 2 + bitw c 4%uint63 4 + bitw c 8%uint63 8
-  + bitw c 16%uint63 16 + bitw c 32%uint63 32 + bitw c 64%uint63 64.
-Fixpoint unpack_chunk (n : nat) (i : Uint63.int) : text :=
-  match n with
-  | O => []
-  | S k => let c := Uint63.land i 127%uint63 in
-           if Uint63.eqb c 0%uint63 then [] else z_of_char c :: unpack_chunk k (Uint63.lsr i 7%uint63)
-  end.
-Definition text_of_packed (l : list Uint63.int) : text := flat_map (unpack_chunk 8) l.
-Arguments text_of_packed l%uint63_scope.
+(* the Uint63-packed reader used by bulk case files lives in SubstCases.v (runner only; no theorem depends on it) *)
 
 (* ------------------------------------------------------------------------------------------ *)
 (* basic text functions                                                                         *)
